@@ -477,6 +477,11 @@ class Concatenator(Group):  # pylint: disable=too-many-public-methods
             if child not in self._children:
                 continue
 
+            if not isinstance(child, (Concatenated, ConcatenatedPropertyGroup)):
+                # plain data held by the group itself (comments, files): unlinked like any child
+                super().remove_children([child])
+                continue
+
             self.remove_entity(child)
             self._children.remove(child)
 
